@@ -89,8 +89,8 @@ class GroundedPrecondition:
 
             elif isinstance(precondition, UniversalPrecondition):
                 self._parameter_map = parameters_map
-                self.logger.debug("There is no need to ground universal preconditions.")
-                continue
+                self.logger.debug("Universal preconditions are grounded per object when evaluated.")
+                grounded_conditions.add_condition(precondition)
 
             elif isinstance(precondition, Precondition):
                 grounded_condition = Precondition(precondition.binary_operator)
@@ -101,6 +101,7 @@ class GroundedPrecondition:
                     precondition.inequality_preconditions, parameters_map
                 )
                 self._ground(precondition, grounded_condition, parameters_map)
+                grounded_conditions.add_condition(grounded_condition)
 
             else:
                 raise ValueError(
@@ -114,11 +115,13 @@ class GroundedPrecondition:
         :param preconditions: the preconditions to validate.
         :return: whether the equality preconditions hold.
         """
-        return all(
-            [obj1 == obj2 for obj1, obj2 in preconditions.equality_preconditions]
-        ) and all(
-            [obj1 != obj2 for obj1, obj2 in preconditions.inequality_preconditions]
-        )
+        checks = [
+            obj1 == obj2 for obj1, obj2 in preconditions.equality_preconditions
+        ] + [obj1 != obj2 for obj1, obj2 in preconditions.inequality_preconditions]
+        if preconditions.binary_operator == "or":
+            return any(checks)
+
+        return all(checks)
 
     def _validate_numeric_expression_hold(
         self,
@@ -183,31 +186,29 @@ class GroundedPrecondition:
     def _ground_universal_condition(
         self, condition: UniversalPrecondition, extended_parameter_map: Dict[str, str]
     ) -> Precondition:
-        """Ground the universal precondition.
-        
+        """Ground the universal precondition for a single quantified object.
+
         :param condition: the universal precondition to ground.
         :param extended_parameter_map: the mapping between the lifted and the grounded objects with the quantified
             object as well.
         :return: the grounded condition for a single object.
         """
         grounded_preconditions = Precondition(condition.binary_operator)
+        grounded_preconditions.equality_preconditions = self._ground_equality_objects(
+            condition.equality_preconditions, extended_parameter_map
+        )
+        grounded_preconditions.inequality_preconditions = self._ground_equality_objects(
+            condition.inequality_preconditions, extended_parameter_map
+        )
         tmp_action = Action()
-        tmp_action.signature = self.action.signature
-        tmp_action.signature[condition.quantified_parameter] = condition.quantified_type
-        for sub_condition in condition.operands:
-            if isinstance(sub_condition, Predicate):
-                grounded_predicate = ground_predicate(
-                    sub_condition, extended_parameter_map, self.domain, tmp_action
-                )
-                grounded_preconditions.add_condition(grounded_predicate)
-
-            elif isinstance(sub_condition, NumericalExpressionTree):
-                grounded_preconditions.add_condition(
-                    ground_numeric_calculation_tree(
-                        sub_condition, extended_parameter_map, self.domain
-                    )
-                )
-
+        tmp_action.name = self.action.name
+        tmp_action.signature = {
+            **self.action.signature,
+            condition.quantified_parameter: condition.quantified_type,
+        }
+        GroundedPrecondition(condition, self.domain, tmp_action)._ground(
+            condition, grounded_preconditions, extended_parameter_map
+        )
         return grounded_preconditions
 
     def _validate_universal_precondition(
@@ -230,49 +231,23 @@ class GroundedPrecondition:
         self.logger.debug(
             "Validating if the universal precondition is applicable in the state"
         )
-        is_applicable = self._validate_equality_holds(condition)
-        self.logger.debug("We assume that universal preconditions are not nested.")
-        extended_parameter_map = {**self._parameter_map}
         for obj_name, obj in problem_objects.items():
-            if obj.type.name != condition.quantified_type.name:
+            if not obj.type.is_sub_type(condition.quantified_type):
                 continue
 
-            extended_parameter_map[condition.quantified_parameter] = obj_name
+            extended_parameter_map = {
+                **self._parameter_map,
+                condition.quantified_parameter: obj_name,
+            }
             grounded_precondition = self._ground_universal_condition(
                 condition, extended_parameter_map
             )
-            for sub_condition in grounded_precondition.operands:
-                if isinstance(sub_condition, GroundedPredicate):
-                    is_applicable = BinaryOperator[
-                        grounded_precondition.binary_operator
-                    ](
-                        is_applicable,
-                        self._validate_predicates_hold(
-                            sub_condition, is_applicable, condition, state
-                        ),
-                    )
+            if not self._is_condition_applicable(
+                grounded_precondition, state, problem_objects
+            ):
+                return False
 
-                elif isinstance(sub_condition, NumericalExpressionTree):
-                    is_applicable = BinaryOperator[
-                        grounded_precondition.binary_operator
-                    ](
-                        is_applicable,
-                        self._validate_numeric_expression_hold(
-                            sub_condition, is_applicable, condition, state
-                        ),
-                    )
-
-                elif isinstance(sub_condition, Precondition):
-                    is_applicable = BinaryOperator[
-                        grounded_precondition.binary_operator
-                    ](
-                        is_applicable,
-                        self._is_condition_applicable(
-                            sub_condition, state, problem_objects
-                        ),
-                    )
-
-        return is_applicable
+        return True
 
     def _is_condition_applicable(
         self,
@@ -290,31 +265,28 @@ class GroundedPrecondition:
         is_applicable = self._validate_equality_holds(preconditions)
         for condition in preconditions.operands:
             if isinstance(condition, GroundedPredicate):
-                is_applicable = BinaryOperator[preconditions.binary_operator](
-                    is_applicable,
-                    self._validate_predicates_hold(
-                        condition, is_applicable, preconditions, state
-                    ),
+                is_applicable = self._validate_predicates_hold(
+                    condition, is_applicable, preconditions, state
                 )
 
             elif isinstance(condition, NumericalExpressionTree):
+                is_applicable = self._validate_numeric_expression_hold(
+                    condition, is_applicable, preconditions, state
+                )
+
+            elif isinstance(condition, UniversalPrecondition):
                 is_applicable = BinaryOperator[preconditions.binary_operator](
                     is_applicable,
-                    self._validate_numeric_expression_hold(
-                        condition, is_applicable, preconditions, state
+                    self._validate_universal_precondition(
+                        condition, state, problem_objects
                     ),
                 )
 
             elif isinstance(condition, Precondition):
                 is_applicable = BinaryOperator[preconditions.binary_operator](
-                    is_applicable, self._is_condition_applicable(condition, state)
+                    is_applicable,
+                    self._is_condition_applicable(condition, state, problem_objects),
                 )
-
-            elif isinstance(condition, UniversalPrecondition):
-                is_applicable = self._validate_universal_precondition(
-                    condition, state, problem_objects
-                )
-                continue
 
             else:
                 raise ValueError(f"Unknown precondition type: {type(condition)}")
